@@ -54,24 +54,27 @@ type Options struct {
 	// RealState: the fresh state store is the real in-memory leveldb state store (it reserves
 	// about 64 MiB); otherwise a map-backed store with the same encoding and ordered iteration.
 	RealState bool
-	LogTo    io.Writer
+	LogTo     io.Writer
 }
 
 // Node is one wired mini node.
 type Node struct {
-	Addr   boson.Address
-	Store  *localstore.DB
-	NS     *netstore.Store
-	Trav   traversal.Traverser
-	Pin    *pinning.Service
-	CI     *chunkinfo.ChunkInfo
-	State  storage.StateStorer
-	API    api.Service
-	Retr   *StubRetrieval
-	Rec    *Switch
-	Chain  *StubChain
-	Logger logging.Logger
-	opts   Options
+	Addr  boson.Address
+	Store *localstore.DB
+	NS    *netstore.Store
+	Trav  traversal.Traverser
+	Pin   *pinning.Service
+	CI    *chunkinfo.ChunkInfo
+
+	hookMu        sync.Mutex
+	beforeDelFile func(root boson.Address)
+	State         storage.StateStorer
+	API           api.Service
+	Retr          *StubRetrieval
+	Rec           *Switch
+	Chain         *StubChain
+	Logger        logging.Logger
+	opts          Options
 }
 
 // New builds a node.
@@ -120,10 +123,37 @@ func New(o Options) (*Node, error) {
 	if err := n.CI.InitChunkInfo(); err != nil {
 		return nil, err
 	}
-	n.Store.SetChunkInfo(n.CI)
+	// the local store reaches chunkinfo through an interposer that can run a callback at the
+	// moment a file is handed over for deletion (before chunkinfo takes its lock)
+	n.Store.SetChunkInfo(&ciInterposer{Interface: n.CI, n: n})
 	n.NS.SetChunkInfo(n.CI)
 	n.API = api.New(n.NS, stubResolver{}, o.Addr, n.CI, n.Trav, n.Pin, nil, logger, nil, nil, nil, n.Chain, nil, nil, api.Options{BufferSizeMul: 1})
 	return n, nil
+}
+
+// ciInterposer forwards everything to the real chunkinfo; DelFile first runs the node's
+// BeforeDelFile callback, if one is set.
+type ciInterposer struct {
+	chunkinfo.Interface
+	n *Node
+}
+
+func (c *ciInterposer) DelFile(root boson.Address, del func() error) error {
+	c.n.hookMu.Lock()
+	f := c.n.beforeDelFile
+	c.n.hookMu.Unlock()
+	if f != nil {
+		f(root)
+	}
+	return c.Interface.DelFile(root, del)
+}
+
+// SetBeforeDelFile installs (or with nil removes) a callback that runs whenever the local
+// store hands a file to chunkinfo for deletion, before chunkinfo is entered.
+func (n *Node) SetBeforeDelFile(f func(root boson.Address)) {
+	n.hookMu.Lock()
+	n.beforeDelFile = f
+	n.hookMu.Unlock()
 }
 
 // Close closes the local store (the state store is left open for restarts).
